@@ -8,7 +8,7 @@ HERE = os.path.dirname(os.path.dirname(os.path.abspath(__file__)))
 
 CLAIMS = {
     "C10": {
-        "text": "Exception-escape (effect) analysis of all 27 decoder entry contexts (6 key loaders, 3 signature decoders, verify/verify_digest x 3 decoders x allow_truncate, 6 ECDH loaders): the set of exception classes that may leave each entry point - explicit raises, implicit raises of partial primitives (indexing, int() of possibly-empty data, unpacking, modular inverse, attribute of a possibly-None field, str.index, base64) whose guarding fact is not established on every path, and input-dependent asserts - is computed over the whole call cone by abstract interpretation and must be within the documented set. Decides the 'only documented exceptions' clause for every byte string; does not decide termination of the arithmetic loops.",
+        "text": "Exception-escape (effect) analysis of all 27 decoder entry contexts (6 key loaders, 3 signature decoders, verify/verify_digest x 3 decoders x allow_truncate, 6 ECDH loaders): the set of exception classes that may leave each entry point - explicit raises, implicit raises of partial primitives (indexing, int() of possibly-empty data, unpacking, modular inverse, attribute of a possibly-None field, str.index, base64) whose guarding fact is not established on every path, and input-dependent asserts - is computed over the whole call cone by abstract interpretation and must be within the documented set. Decides the 'only documented exceptions' clause for every byte string; does not decide termination of the arithmetic loops. bytes.decode() of unvalidated octets is a partial primitive (UnicodeDecodeError).",
         "note": "Sound up to assumptions A1-A7 printed in the evidence: summaries of ellipticcurve/numbertheory arithmetic use the INFEASIBLE / INTERNAL_ASSERTS tables of sa/config.py (each entry with its reason and listed in the evidence); hash functions are contract parameters; Python-2-only branches are not analysed.",
         "technique": "abstract interpretation (linear-inequality + predicate domain, context-sensitive, exception-escape analysis with obligations of partial primitives)",
         "design": "DESIGN.md section 3 C10, section 2.3-2.5",
@@ -29,7 +29,7 @@ CLAIMS.update({
         "design": "DESIGN.md section 3 C12",
     },
     "C13": {
-        "text": "For each of the three canonical encoders (found by role) and every s in [1, order-1] symbolically: at the delegation to the plain sibling the forwarded s' provably satisfies 2*s' <= order (an inexact float threshold leaves this unproven and is reported), s' is s or order - s, r and order are forwarded unchanged, the sibling is the plain encoder of the same format (helpers extracted from the encoders are followed) and every return value is that sibling's result. This is the first sentence of the property; equivalence of (r, n-s) under verification is algebra and not decided.",
+        "text": "For each of the three canonical encoders (the public sigencode_*_canonize functions; one that does not delegate to the plain encoder of its format is itself the violation) and every s in [1, order-1] symbolically: at the delegation to the plain sibling the forwarded s' provably satisfies 2*s' <= order (an inexact float threshold leaves this unproven and is reported), s' is s or order - s, r and order are forwarded unchanged, the sibling is the plain encoder of the same format (helpers extracted from the encoders are followed) and every return value is that sibling's result. This is the first sentence of the property; equivalence of (r, n-s) under verification is algebra and not decided.",
         "note": "A1-A7; true division yields an abstract float on which no ordering fact is derived, so only exact integer comparisons can discharge R13.1.",
         "technique": "abstract interpretation over linear integer constraints (floor-division modelled exactly), call-site entailment",
         "design": "DESIGN.md section 3 C13",
@@ -86,7 +86,7 @@ CLAIMS.update({
         "design": "DESIGN.md section 3 C06",
     },
     "C07": {
-        "text": "Sign and operand agreement of the multiplication loops: in mul_add the operand accumulated under each of the nine (sign A, sign B) digit cases is (sign A)P + (sign B)Q, the four combined points being classified from the signs of the Y arguments they were built with; __mul__ adds the negated base exactly on negative digits; _mul_precompute pairs k = 3 mod 4 with the negated table entry and (k+1)/2, k = 1 mod 4 with the entry and (k-1)/2; each digit starts with exactly one doubling and additions occur only in digit branches; accumulators start at the identity encoding (0, 0, 1) and every digit of the reversed NAF is consumed; NAF lists are padded to equal length; every table entry is the affine (x(), y()) of a point and is added with Z = 1; short-circuits pair each multiplier with its own point and the two fallbacks compute self*self_mul + other*other_mul; scalars are reduced only modulo a positive multiple of the declared order under `if self.__order`; C06's exactness/invariant rules hold inside the loops. The five Y == 0 sites in this code are the recorded known finding F6. Does not decide that NAF digits sum to k, table length, or result values.",
+        "text": "Sign and operand agreement of the multiplication loops: in mul_add the operand accumulated under each of the nine (sign A, sign B) digit cases is (sign A)P + (sign B)Q, the four combined points being classified from the signs of the Y arguments they were built with; __mul__ adds the negated base exactly on negative digits; _mul_precompute pairs k = 3 mod 4 with the negated table entry and (k+1)/2, k = 1 mod 4 with the entry and (k-1)/2; each digit starts with exactly one doubling and additions occur only in digit branches; accumulators start at the identity encoding (0, 0, 1) and every digit of the reversed NAF is consumed; NAF lists are padded to equal length; every table entry is the affine (x(), y()) of a point and is added with Z = 1; short-circuits pair each multiplier with its own point and the two fallbacks compute self*self_mul + other*other_mul; scalars are reduced only modulo a positive multiple of the declared order under `if self.__order`; C06's exactness/invariant rules hold inside the loops. The five Y == 0 sites in this code are the recorded known finding F6. Does not decide that NAF digits sum to k, table length, or result values. Identity typestate (R07.6): a result that may be the legacy identity object is the receiver only of operations class Point defines identity-safely (classified from the method bodies), unless guarded by == INFINITY.",
         "note": "A1-A7; same residue/role analysis as C06; an unrecognised restructuring of the digit dispatch is ANALYSIS-ERROR, not a violation.",
         "technique": "abstract interpretation over a sign/operand provenance domain + structural loop-shape checks",
         "design": "DESIGN.md section 3 C07",
@@ -140,7 +140,7 @@ CLAIMS.update({
         "design": "DESIGN.md section 3 C15",
     },
     "C16": {
-        "text": "Table and base-set clauses (thin): the literal smallprimes table is ascending, equals the set of primes up to its maximum (sieved by the checker) and is never written; is_prime answers n <= max(table) by membership before a prefilter that rejects only on a non-trivial gcd with table primes; for every bit length <= 65 at least 12 Miller-Rabin rounds are chosen (bases smallprimes[i], deterministic below 3.3e24 by the published bound) and False is returned only on a witness; next_prime walks odd candidates upward from (n+1)|1 until is_prime, 2 below 2; gcd/lcm reduce both calling conventions with the same binary function. Does not decide the modular arithmetic of Miller-Rabin, factorization or gcd values.",
+        "text": "Table and base-set clauses (thin): the literal smallprimes table is ascending, equals the set of primes up to its maximum (sieved by the checker) and is never written; is_prime answers n <= max(table) by membership before a prefilter that rejects only on a non-trivial gcd with table primes; for every bit length <= 65 at least 12 Miller-Rabin rounds are chosen (bases smallprimes[i], deterministic below 3.3e24 by the published bound) and False is returned only on a witness; next_prime walks odd candidates upward from (n+1)|1 until is_prime, 2 below 2; gcd/lcm reduce both calling conventions with the same binary function. Does not decide the modular arithmetic of Miller-Rabin, factorization or gcd values. factorization: the odd-divisor search advances by 2 and its single exit condition normalises (integer comparison normal form over n, d, n//d, d*d) to d*d > n; small-prime phase and n < 2 shape.",
         "note": "A1; shape rules over one function each: an equivalent restructuring is reported and must be re-confirmed by reading.",
         "technique": "constant folding + table comparison, structural shape rules",
         "design": "DESIGN.md section 3 C16",
